@@ -1021,9 +1021,12 @@ func (t *Tokenizer) readBacktickIdentifier() (models.Token, error) {
 			t.pos.Index++
 			t.pos.Column++
 
+			value := buf.String()
 			return models.Token{
 				Type:  models.TokenTypeIdentifier, // Backtick identifiers are identifiers
-				Value: buf.String(),
+				Word:  &models.Word{Value: value, QuoteStyle: '`'},
+				Value: value,
+				Quote: '`',
 			}, nil
 		}
 
